@@ -196,6 +196,11 @@ func sameValue(a, b ssa.Value) bool {
 	if a == b {
 		return true
 	}
+	if ca, ok := a.(*ssa.Const); ok {
+		if cb, ok := b.(*ssa.Const); ok {
+			return ca.Value != nil && cb.Value != nil && ca.Value.String() == cb.Value.String() && ca.Value.Kind() == cb.Value.Kind()
+		}
+	}
 	a2, b2 := stripConv(a), stripConv(b)
 	if a2 == b2 {
 		return true
